@@ -118,7 +118,33 @@ def run(chk):
                         chk.violation(f'{tag}-unpack_bits-lagr_idx', f'{desc}: lagr_idx does not match the particles of the slices', payload)
             if ci % 25 == 0 and k == 0:
                 chk.sample(dict(catalog=cat, options=payload['kw'], expected_table=c['table'], expected_index=c['index']))
-    chk.part('loads', loads=nload, nonempty=nontriv)
+    # ---- larger random catalogs judged by the twin (it agreed with TLC on every oracle case above)
+    nbig = 0
+    for rep in range(6 if chk.quick else 60):
+        nsl = int(rng.integers(1, 6))
+        cat = [[dict(nA=int(rng.integers(0, 6)), gA=int(rng.integers(0, 4)), mA=int(rng.integers(0, 4)), hA=int(rng.integers(0, 3)),
+                     nB=int(rng.integers(0, 5)), gB=int(rng.integers(0, 3)), mB=int(rng.integers(0, 3)), hB=int(rng.integers(0, 3)),
+                     away=bool(rng.random() < 0.15)) for _ in range(int(rng.integers(0, 41)))] for _ in range(nsl)]
+        if sum(len(sl) for sl in cat) == 0:
+            continue
+        zd = sc.write_catalog(root, cat)
+        for cleaned in (True, False):
+            abs_ = [['A', 'B'], ['B'], ['A']][rep % 3]
+            c = dict(cat=cat, mask=[[True] * len(sl) for sl in cat], ABs=abs_, cleaned=cleaned)
+            c['table'], c['index'] = cc.twin(cat, c['mask'], abs_, cleaned)
+            subs = {ab: True for ab in abs_}
+            subs.update(pos=True, vel=True, pid=True)
+            desc = f'random catalog ({nsl} superslabs, {[len(sl) for sl in cat]} halos) cleaned={cleaned} subsamples={subs}'
+            try:
+                cobj = cc.load(zd, cleaned=cleaned, subsamples=subs, fields=['id', 'N'])
+            except Exception as e:  # noqa
+                chk.violation(f'big-raises-{type(e).__name__}', f'{desc}: {type(e).__name__}: {e}', dict(cat=cat, cleaned=cleaned))
+                continue
+            nbig += 1
+            nontriv += 1
+            cc.compare(chk, 'C01', c, cobj, ['pos', 'vel', 'pid'], f'big-{"cleaned" if cleaned else "uncleaned"}-{"".join(abs_)}', desc, dict(cat=cat, cleaned=cleaned, ABs=abs_))
+    nload += nbig
+    chk.part('loads', loads=nload, nonempty=nontriv, big_random=nbig)
     # light-cone layout
     nlc = 0
     for rep in range(8 if chk.quick else 60):
